@@ -233,6 +233,9 @@ var expandable = []expField{
 	{[]string{"overrides", "rpm", "conflicts"}, "conflicts:", true, func(c *nfpm.Config) any { return c.Overrides["rpm"].Conflicts }},
 	{[]string{"overrides", "apk", "provides"}, "provides:", true, func(c *nfpm.Config) any { return c.Overrides["apk"].Provides }},
 	{[]string{"overrides", "archlinux", "replaces"}, "replaces:", true, func(c *nfpm.Config) any { return c.Overrides["archlinux"].Replaces }},
+	// not marked in the documentation, but expanded by the parser: checked only while a control document shows that they expand
+	{[]string{"deb", "predepends"}, "?probe", true, func(c *nfpm.Config) any { return c.Deb.Predepends }},
+	{[]string{"ipk", "predepends"}, "?probe", true, func(c *nfpm.Config) any { return c.IPK.Predepends }},
 	{[]string{"rpm", "packager"}, "  packager:", false, func(c *nfpm.Config) any { return c.RPM.Packager }},
 	{[]string{"rpm", "signature", "key_file"}, "    key_file:", false, func(c *nfpm.Config) any { return c.RPM.Signature.KeyFile }},
 	{[]string{"rpm", "signature", "key_id"}, "    key_id:", false, func(c *nfpm.Config) any { return ptrStr(c.RPM.Signature.KeyID) }},
@@ -245,6 +248,9 @@ var expandable = []expField{
 // docSaysExpandable checks configuration.md still marks the key as expandable: the comment
 // block right above some occurrence of the key contains "expand any env var".
 func docSaysExpandable(doc string, key string) bool {
+	if key == "?probe" {
+		return true // decided per field by probeExpands
+	}
 	lines := strings.Split(doc, "\n")
 	for i, l := range lines {
 		if !strings.HasPrefix(l, key) {
@@ -351,6 +357,21 @@ func mapping(env map[string]string) func(string) string {
 	return func(k string) string { return env[k] }
 }
 
+// probeExpands: does a list field that the documentation does not mark undergo expansion at all?
+func probeExpands(ef *expField) bool {
+	cfg, err := parseDoc(docWith(ef.Path, []any{"$PROBE_VAR"}), func(k string) string {
+		if k == "PROBE_VAR" {
+			return "probe-value"
+		}
+		return ""
+	})
+	if err != nil {
+		return false
+	}
+	l, _ := ef.Get(&cfg).([]string)
+	return len(l) == 1 && l[0] == "probe-value"
+}
+
 func checkExpand(ec *ExpandCase) []Violation {
 	var vs vlist
 	var ef *expField
@@ -361,6 +382,9 @@ func checkExpand(ec *ExpandCase) []Violation {
 	}
 	if ef == nil {
 		panic("unknown field " + ec.Field)
+	}
+	if ef.DocKey == "?probe" && !probeExpands(ef) {
+		return nil // the field is taken literally: nothing is claimed about it
 	}
 	var val any
 	var want any
